@@ -325,6 +325,31 @@ func c15(args []string) {
 	}
 	wg.Wait()
 
+	// C2: frames that lie next to each other in ONE buffer of the caller (a file read in one go), taken out with the direct
+	// GetMessage path: decoding and displaying one of them must neither change what the next one is nor touch the buffer
+	for _, lv := range levels {
+		h := handler.New(start, lv)
+		for i := 0; i+1 < len(pool); i++ {
+			f, g := pool[i], pool[i+1]
+			if len(f) < 6 || len(g) < 6 || f[0] != 0xd3 || g[0] != 0xd3 {
+				continue
+			}
+			m0 := safeGet(handler.New(start, lv), f)
+			if m0 == nil || m0.MessageType < 0 || len(m0.RawData) != len(f) {
+				continue // not a frame GetMessage takes whole
+			}
+			buf := append(append(append(make([]byte, 0, len(f)+len(g)+24), f...), g...), bytes.Repeat([]byte{0xa5}, 24)...)
+			before := append([]byte{}, buf...)
+			m1 := safeGet(h, buf)
+			emit(observe(m1, key(i, lv), "shared-buffer-first"))
+			m2 := safeGet(h, buf[len(f):len(f)+len(g)])
+			emit(observe(m2, key(i+1, lv), "shared-buffer-second"))
+			if !bytes.Equal(before, buf) {
+				emit(c15Event{Key: key(i, lv), Scenario: "shared-buffer", Panic: "the caller's buffer was written to while decoding / displaying"})
+			}
+		}
+	}
+
 	// D: the real fan-out (appcore): consumer 1 displays and scribbles on its own copy,
 	// consumer 2 must still see the canonical message; the file handler decodes at debug level.
 	var stream []byte
